@@ -29,7 +29,7 @@ theorem C05_envelope (D : Deps) (cols : List Col) (codec pageSize : Nat) (create
 `PAR1 ++ data ++ footer ++ len ++ PAR1` where the footer is the serialisation of metadata `md`
 whose row groups and column chunks describe consecutive, gap-free, non-overlapping byte ranges
 starting at offset 4 and ending exactly where the footer starts (`GroupsAt md.rowGroups 4`,
-`|data| = Σ total_compressed_size`), each row group's `total_compressed_size` and
+`|data| = Σ total_compressed_size`), the file's `num_rows` is the sum of the row groups' `num_rows`, each row group's `total_compressed_size` and
 `total_byte_size` being the sum of its chunks' sizes and each chunk's `file_offset` (=
 `data_page_offset`) the position of its first byte. -/
 theorem C05_chunks_tile (D : Deps) (cols : List Col) (codec pageSize : Nat) (createdBy : String)
@@ -39,7 +39,8 @@ theorem C05_chunks_tile (D : Deps) (cols : List Col) (codec pageSize : Nat) (cre
       (fileOf D cols codec pageSize createdBy ops).1 =
         magic ++ data ++ D.footer md ++ le32 (D.footer md).length ++ magic ∧
       md.cols = cols ∧ md.createdBy = createdBy ∧
-      data.length = groupsSize md.rowGroups ∧ GroupsAt md.rowGroups 4 := by
+      data.length = groupsSize md.rowGroups ∧ GroupsAt md.rowGroups 4 ∧
+      md.numRows = (md.rowGroups.map (·.numRows)).sum := by
   unfold fileOf writesOf at hok ⊢
   have hinit := allInv_init cols codec pageSize createdBy
   obtain ⟨r1, r2⟩ := run_eq_close D ops { cols := cols, codec := codec, pageSize := pageSize, createdBy := createdBy } []
@@ -62,9 +63,11 @@ theorem C05_chunks_tile (D : Deps) (cols : List Col) (codec pageSize : Nat) (cre
   have hfold := stateAfter_cols D
   obtain ⟨k1, k2⟩ := hclosing (stateAfter D { cols := cols, codec := codec, pageSize := pageSize, createdBy := createdBy } ops)
   obtain ⟨f1, f2⟩ := hfold ops { cols := cols, codec := codec, pageSize := pageSize, createdBy := createdBy }
+  have hrows := rowsInv_closing D _ (rowsInv_stateAfter D ops
+    { cols := cols, codec := codec, pageSize := pageSize, createdBy := createdBy } (by simp [RowsInv]))
   have hrest : (closing D (stateAfter D { cols := cols, codec := codec, pageSize := pageSize, createdBy := createdBy } ops)).out = magic :: rest := hrest
   generalize hW : closing D (stateAfter D { cols := cols, codec := codec, pageSize := pageSize, createdBy := createdBy } ops) = W' at *
-  refine ⟨rest.flatten, ⟨W'.cols, W'.createdBy, W'.totalRows, W'.rowGroups⟩, ?_, ?_, ?_, ?_, c3⟩
+  refine ⟨rest.flatten, ⟨W'.cols, W'.createdBy, W'.totalRows, W'.rowGroups⟩, ?_, ?_, ?_, ?_, c3, hrows⟩
   · rw [hrest]; simp [footerOf, List.flatten_cons, List.append_assoc]
   · simpa using k1.trans f1
   · simpa using k2.trans f2
